@@ -80,6 +80,25 @@ func executePlan(plan *Plan, replay bool, trace bool) (w *World, res *RunResult)
 			wal.step(st) // written ahead: if the process dies in this step the parent still has the plan
 			w.apply(st)
 		}
+		if plan.Config.LastPunish && w.Cmt.Halted == "" && w.Cmt.Vals != nil {
+			// every member of the validator set (the anchor too) is caught double-signing in one block:
+			// the module tombstones them all, candidates - if there are any - take over two blocks
+			// later, and until then the commits still list only punished validators
+			a := &BlockArgs{}
+			for i := range w.Cmt.Vals.Validators {
+				a.Evidence = append(a.Evidence, EvidenceSpec{Val: i, AgeBlocks: 1, AgeSec: 2})
+			}
+			w.probe("every-member-punished-at-once")
+			for _, st := range []Step{mkStep("block", a, 0), mkStep("block", &BlockArgs{}, 0), mkStep("block", &BlockArgs{}, 0), mkStep("block", &BlockArgs{}, 0)} {
+				st.I = len(plan.Steps)
+				plan.Steps = append(plan.Steps, st)
+				wal.step(st)
+				w.apply(st)
+				if w.Cmt.Halted != "" {
+					break
+				}
+			}
+		}
 		if plan.Config.LastExit && w.Cmt.Halted == "" {
 			// every validator (the anchor too) asks for everything back: a legal history of unlock
 			// requests whose validator updates the consensus engine must still be able to apply
